@@ -700,7 +700,7 @@ func (e *Engine) RunHarness(fn *ssa.Function, keepModels int) *HarnessResult {
 						hr.Queries[s.Role] = q
 						hr.SolverTime[s.Role] += s.Time
 						if len(hr.SolverErrs) < 20 {
-							hr.SolverErrs = append(hr.SolverErrs, s.Errors...)
+							hr.SolverErrs = append(hr.SolverErrs, realSolverErrors(s)...)
 						}
 						s.Close()
 					}
@@ -757,7 +757,7 @@ func (e *Engine) RunHarness(fn *ssa.Function, keepModels int) *HarnessResult {
 								hr.Queries[o.Role] = q
 								hr.SolverTime[o.Role] += o.Time
 								if len(hr.SolverErrs) < 20 {
-									hr.SolverErrs = append(hr.SolverErrs, o.Errors...)
+									hr.SolverErrs = append(hr.SolverErrs, realSolverErrors(o)...)
 								}
 								mu.Unlock()
 								o.Close()
@@ -853,6 +853,20 @@ type workerSolvers struct {
 	bv    *smt.Session // bit-vectors, incremental
 	cross map[string]*smt.Session // second solvers by vendor, one query at a time from scratch
 	procs []*smt.Solver
+}
+
+// realSolverErrors: the error lines of a solver that make a run inconclusive. A second-opinion solver that was
+// killed by the watchdog (it neither answered nor honoured its time limit) has already been counted as a
+// cross-check timeout, the primary verdict stands: that is not an error line.
+func realSolverErrors(s *smt.Solver) []string {
+	var out []string
+	for _, e := range s.Errors {
+		if strings.HasPrefix(s.Role, "cross") && strings.Contains(e, "i/o timeout") {
+			continue
+		}
+		out = append(out, e)
+	}
+	return out
 }
 
 // crossFor returns the second-opinion session: always the other vendor than the primary of the mode.
